@@ -10,7 +10,9 @@ Independently, (a) a Python oracle written from the property text and (b) the Co
 (proved sound w.r.t. js_spec in C18/JobShopSpec.v) judge the implementation's outputs.
 """
 import collections.abc
+import copy
 import json
+import math
 import random as _random
 
 from harness.core import COQ, VERIF, Ctx, cbool, clist, cnat, copt, cz, guarded, pmap
@@ -118,19 +120,30 @@ def build_jobs(case):
     """The jobs argument as the case's call-shape keys say (see jobshop_families.py); the model sees case['jobs']."""
     shape = case.get("shape", "list_tuple")
     fresh, boo, fl, half = case.get("fresh_ints"), case.get("bool_labels"), case.get("float_durs"), case.get("half")
+    mask, special = case.get("float_mask"), case.get("special") or {}
 
-    def mk(x, dur):
+    def mk(x, dur, j=0, k=0):
+        if dur and f"{j},{k}" in special:
+            return float(special[f"{j},{k}"])
         if dur and half:
             return x / 2
-        if dur and fl:
-            return float(x)
+        if dur and (fl or (mask and mask[j][k])):
+            return -0.0 if (mask and x == 0) else float(x)
         if boo and x in (0, 1):
             return bool(x)
         return (x + _BIG) - _BIG if fresh else x     # arithmetic at call time: a new int object when outside the small-int cache
 
+    if shape.startswith("shared_objects"):
+        # equal operations are ONE tuple object, equal jobs ONE list object (so jobs[a] is jobs[b])
+        ops_pool, jobs_pool, jobs = {}, {}, []
+        for job in case["jobs"]:
+            items = [ops_pool.setdefault((o[0], o[1]), (o[0], o[1])) for o in job]
+            jobs.append(jobs_pool.setdefault(tuple(items), items if shape.endswith("_list") else tuple(items)))
+        return jobs
+
     def ops(j, job):
         sh = ("list_tuple", "list_list", "tuple_tuple", "seq")[j % 4] if shape == "mixed" else shape
-        items = [([mk(o[0], False), mk(o[1], True)] if sh == "list_list" else (mk(o[0], False), mk(o[1], True))) for o in job]
+        items = [([mk(o[0], False), mk(o[1], True, j, k)] if sh == "list_list" else (mk(o[0], False), mk(o[1], True, j, k))) for k, o in enumerate(job)]
         return tuple(items) if sh == "tuple_tuple" else Seq(items) if sh == "seq" else items
 
     jobs = [ops(j, job) for j, job in enumerate(case["jobs"])]
@@ -139,7 +152,7 @@ def build_jobs(case):
 
 def snapshot(jobs):
     """identity + type + value of everything reachable from the jobs argument (to detect that the callee modified or re-bound it)"""
-    return [(id(job), type(job).__name__, [(id(o), type(o).__name__, type(o[0]).__name__, o[0], type(o[1]).__name__, o[1]) for o in job])
+    return [(id(job), type(job).__name__, [(id(o), type(o).__name__, type(o[0]).__name__, repr(o[0]), type(o[1]).__name__, repr(o[1])) for o in job])
             for job in jobs]
 
 
@@ -149,7 +162,9 @@ def call_kwargs(case):
     if case.get("cb_k") is not None:
         k = case["cb_k"]
         kw["on_progress"] = lambda p: p.iteration >= k
-        kw["progress_interval"] = case["interval"]
+        kw["progress_interval"] = float(case["interval"]) if case.get("float_interval") else case["interval"]
+    if case.get("float_seed") and kw.get("seed") is not None:
+        kw["seed"] = float(kw["seed"])
     return kw
 
 
@@ -186,7 +201,7 @@ def call_impl(jobs, kw):
         except Exception as e:  # noqa: BLE001
             return {"kind": "bad", "what": f"malformed schedule: {e}", "draws": draws}
         return {"kind": "ok", "schedule": items, "objective": _num(r.objective), "status": r.status.name,
-                "iterations": r.iterations, "draws": draws, "_result": r}
+                "iterations": r.iterations, "evaluations": r.evaluations, "draws": draws, "_result": r}
     if res[0] == "exc":
         return {"kind": "exc", "type": res[1], "msg": res[2], "draws": draws}
     return {"kind": "hang", "draws": draws}
@@ -209,7 +224,7 @@ def run_impl(case):
 def _num(x):
     if isinstance(x, bool):
         return x
-    if isinstance(x, float) and x == int(x):
+    if isinstance(x, float) and math.isfinite(x) and x == int(x):
         return int(x)
     return x
 
@@ -231,6 +246,20 @@ def run_pair(case):
         elif [[j, o, s * k, e * k] for j, o, s, e in bo["schedule"]] != out["schedule"]:
             meta = (f"scaling every duration by {k} does not scale the schedule: base {bo['schedule']} objective {bo['objective']}, "
                     f"scaled {out['schedule']}")
+    if case.get("float_mask") or case.get("float_interval") or case.get("float_seed"):
+        # 33.0 vs 33: the same call with ints everywhere must give the same answer
+        io = run_impl({k: v for k, v in case.items() if k not in ("float_mask", "float_interval", "float_seed")})
+        strip = lambda o: {k: v for k, v in o.items() if k not in ("draws", "msg")}  # noqa: E731
+        if strip(io) != strip(out):
+            meta = f"integral floats instead of ints change the answer: ints {strip(io)}, floats {strip(out)}"
+    if case.get("port") and out["kind"] == "ok" and not meta:
+        ref = EV.ref_run(case)
+        rs = sorted([j, k, s, e] for (j, k), (s, e) in ref["schedule"].items())
+        got = (out["schedule"], out["objective"], out["iterations"], out["evaluations"])
+        if (rs, ref["objective"], ref["iterations"], ref["evaluations"]) != got:
+            meta = (f"differs from the exact reference (port of the modelled algorithm): reference objective {ref['objective']} iterations "
+                    f"{ref['iterations']} evaluations {ref['evaluations']}, returned {out['objective']} / {out['iterations']} / {out['evaluations']}"
+                    + ("" if rs == out["schedule"] else "; schedules differ"))
     return out, base, meta
 
 
@@ -312,6 +341,42 @@ def oracle(case, out):
     if "schedule" in exp and out["schedule"] != exp["schedule"]:
         diff = [(a, b) for a, b in zip(out["schedule"], exp["schedule"]) if a != b][:3]
         return f"schedule differs from the only valid left-shifted one: (returned, expected) {diff}"
+    for key in ("iterations", "evaluations"):
+        if key in exp and out.get(key) != exp[key]:
+            return f"Result.{key} = {out.get(key)}, but this instance needs exactly {exp[key]} (the work cannot be cut short)"
+    return None
+
+
+def oracle_nonfinite(case, out):
+    """NaN / inf / overflowing durations (observation only, never a verdict): None if the call raised or what came back is consistent in
+    float arithmetic, else a description."""
+    if out["kind"] == "exc":
+        return None
+    if out["kind"] != "ok":
+        return out.get("what") or "implementation hangs (> 20 s)"
+    special = case.get("special") or {}
+    dur = {(j, k): (float(special[f"{j},{k}"]) if f"{j},{k}" in special else o[1]) for j, job in enumerate(case["jobs"]) for k, o in enumerate(job)}
+    mach = {(j, k): o[0] for j, job in enumerate(case["jobs"]) for k, o in enumerate(job)}
+    sched = {(j, k): (float(s), float(e)) for j, k, s, e in out["schedule"]}     # back to the floats that were returned
+    dur = {key: float(d) for key, d in dur.items()}
+    if set(sched) != set(dur):
+        return f"operations without start/end or extra entries: {sorted(set(dur) ^ set(sched))[:6]}"
+    for key, (s, e) in sched.items():
+        if not (e - s == dur[key]):
+            return f"operation {key}: start {s}, end {e}: end - start = {e - s}, duration {dur[key]}"
+    for (j, k), (s, e) in sched.items():
+        if (j, k + 1) in sched and not (sched[(j, k + 1)][0] >= e):
+            return f"job {j}: operation {k + 1} starts at {sched[(j, k + 1)][0]}, operation {k} ends at {e}"
+    keys = sorted(sched)
+    for a in range(len(keys)):
+        for b in range(a + 1, len(keys)):
+            if mach[keys[a]] == mach[keys[b]]:
+                (s1, e1), (s2, e2) = sched[keys[a]], sched[keys[b]]
+                if max(s1, s2) < min(e1, e2):
+                    return f"machine {mach[keys[a]]}: operations {keys[a]} {(s1, e1)} and {keys[b]} {(s2, e2)} overlap"
+    ends = [e for _, e in sched.values()]
+    if not all(float(out["objective"]) >= e for e in ends) or float(out["objective"]) not in ends:
+        return f"objective {out['objective']} is not the latest end time of {ends}"
     return None
 
 
@@ -440,6 +505,56 @@ def run_alias(pair):
     return outs[0], outs[1], bad
 
 
+# ---------------------------------------------------------------- in-place edits between calls (class A2)
+def apply_edits(jobs, edits):
+    for kind, j, k, v in edits:
+        j %= len(jobs)
+        k %= len(jobs[j])
+        op = jobs[j][k]
+        if kind == "dur":
+            if isinstance(op, list):
+                op[1] = v                       # deepest in-place edit: nothing above it changes identity or length
+            else:
+                jobs[j][k] = (op[0], v)
+        elif kind == "mach":
+            if isinstance(op, list):
+                op[0] = v
+            else:
+                jobs[j][k] = (v, op[1])
+        elif kind == "swap_jobs":
+            k %= len(jobs)
+            jobs[j], jobs[k] = jobs[k], jobs[j]
+        elif kind == "append_op":
+            jobs[j].append(list(v) if isinstance(op, list) else tuple(v))
+        elif kind == "append_job":
+            jobs.append([list(o) if isinstance(op, list) else tuple(o) for o in v])
+        elif kind == "del_op" and len(jobs[j]) > 1:
+            del jobs[j][k]
+
+
+def run_edit(item):
+    """call; edit the caller's jobs object in place; call again; the second answer must be the answer of a fresh call on a deep copy."""
+    case, edits = item
+    jobs = build_jobs(case)
+    kw = call_kwargs(case)
+    o1 = call_impl(jobs, kw)
+    o1.pop("_result", None)
+    apply_edits(jobs, edits)
+    before = snapshot(jobs)
+    o2 = call_impl(jobs, kw)
+    o2.pop("_result", None)
+    bad = None
+    if snapshot(jobs) != before:
+        bad = "the second call modified the (edited) jobs argument"
+    o3 = call_impl(copy.deepcopy(jobs), kw)
+    o3.pop("_result", None)
+    if not bad and o2 != o3:
+        bad = (f"after editing the jobs object in place {edits} the answer differs from a fresh call on a deep copy of the edited input: "
+               f"{ {k: v for k, v in o2.items() if k != 'draws'} } vs fresh { {k: v for k, v in o3.items() if k != 'draws'} }")
+    case2 = {**{k: v for k, v in case.items() if k != "shape"}, "jobs": [[[o[0], o[1]] for o in job] for job in jobs], "family": "A2:after-edit"}
+    return o1, case2, o2, bad
+
+
 # ---------------------------------------------------------------- event-directed search (class H), see jobshop_events.py
 def judge_event_case(case, ref):
     """runs in the search workers on EVERY candidate: implementation + property oracle (+ agreement of the reference port)"""
@@ -478,6 +593,12 @@ def run_js(ctx: Ctx):
     for _ in range(ctx.budget(1, 3)):
         cases += FAM.gen_sized(rng, big)
     alias_pairs = [FAM.gen_alias(rng) for _ in range(ctx.budget(40, 400))]
+    # round 3: W work volume (every internal loop across 2^7 .. 2^12, 10^4, 10^5), A2 in-place edits / duplicate objects, X float extremes
+    cases += FAM.gen_work(rng, big)
+    for gen, q, t in ((FAM.gen_duplicates, 30, 300), (FAM.gen_float_mix, 50, 500)):
+        cases += [gen(rng) for _ in range(ctx.budget(q, t))]
+    edit_items = [FAM.gen_edit(rng) for _ in range(ctx.budget(50, 500))]
+    nonfinite = [FAM.gen_nonfinite(rng) for _ in range(ctx.budget(30, 300))]
 
     # open known findings of this part: replay their witnesses first
     for f in ctx.open_findings():
@@ -530,8 +651,29 @@ def run_js(ctx: Ctx):
         results += [(oa, None, None), (ob, None, None)]
         ctx.evaluations += 2
 
+    for (c0, edits), (o1, c2, o2, bad) in zip(edit_items, pmap(run_edit, edit_items)):
+        if bad:
+            ctx.violation(f"solve_job_shop call sequence: {bad}", {"kind": "js_edit", "case": c0, "edits": edits})
+        cases += [c0, c2]
+        results += [(o1, None, None), (o2, None, None)]
+        ctx.evaluations += 3
+    # X non-finite durations (NaN / inf / sums overflowing to inf): OUTSIDE the property (finite data) - observation only: the call may
+    # return anything or raise; nothing here is a violation or a finding, only counted
+    for c, out in zip(nonfinite, pmap(run_impl, nonfinite)):
+        ctx.evaluations += 1
+        ctx.count("js_family", c["family"])
+        verdict = oracle_nonfinite(c, out) if out["kind"] != "hang" else "hang"
+        ctx.count("observation_only", "js " + c["family"][2:] + ": " + ("raises" if out["kind"] == "exc" else "hang (cut by the guard)" if out["kind"] == "hang"
+                                                                  else "result consistent in float arithmetic" if not verdict else "result with nan/inf times"))
+
+    work_max = {}
     coq_cases, spec_cases, metas, spec_metas = [], [], [], []
     for idx, (case, (out, base, meta)) in enumerate(zip(cases, results)):
+        if out["kind"] == "ok":
+            n_all = sum(len(j) for j in case["jobs"])
+            for key, val in (("ls_passes", out.get("iterations", 0)), ("evaluations", out.get("evaluations", 0)), ("dispatch_steps", n_all),
+                             ("ready_list", len(case["jobs"])), *(case.get("work") or {}).items()):
+                work_max[key] = max(work_max.get(key, 0), val)
         ctx.evaluations += 1
         valid = input_valid(case)
         n_ops = sum(len(j) for j in case["jobs"])
@@ -554,7 +696,7 @@ def run_js(ctx: Ctx):
         bad = oracle(case, out) or meta
         if bad:
             if meta and not oracle(case, out):
-                ctx.violation(f"solve_job_shop: {meta}", {"kind": "js", **{k: v for k, v in case.items() if k != "base"}, "base": case["base"]})
+                ctx.violation(f"solve_job_shop: {meta}", {"kind": "js", **{k: v for k, v in case.items() if k not in ("base", "expect")}, "base": case.get("base")})
             else:
                 report(case, bad)
         if nontrivial(case):
@@ -571,6 +713,10 @@ def run_js(ctx: Ctx):
             spec_cases.append(f"({c_jobs(case['jobs'])}, {c_obs(out)})")
             spec_metas.append((case, out))
 
+    work_max["accepted_moves_in_one_run"] = stats["max_accepts"]
+    ctx.extra["js_work_volume_max"] = work_max
+    for key, val in work_max.items():
+        ctx.count("js_work_volume_max", key, val)
     failing = ctx.coq_check("js_corr", IMPORTS, "jcase", "corr_chk", coq_cases)
     disagree = [metas[i] for i in failing]
     sfailing = ctx.coq_check("js_spec", IMPORTS, "list job * iobs", "fun c => spec_check (fst c) (snd c)", spec_cases)
@@ -623,6 +769,8 @@ def run_js(ctx: Ctx):
         "job shop: on_progress is modelled as a total function iteration -> bool; the harness uses threshold call-backs",
         "job shop oracle: invalid inputs (empty job, negative machine/duration, unknown rule) may raise ValueError; any other exception or a hang is a violation",
         "job shop: instances with > 40 operations or machine numbers > 320 (families S:*) are judged by the Python oracle and their by-construction answers only (no vm_compute)",
+        "job shop: families W:* fix Result.iterations / Result.evaluations where the construction determines them and compare with the reference port where flagged; js_work_volume_max gives the largest count reached per internal loop",
+        "job shop: NaN / inf durations and finite float durations whose sums overflow to inf are OUTSIDE the property (its quantifier speaks of finite data): a few such calls are made observation-only (histogram observation_only), never a violation or a finding",
         "job shop: the event-directed search is steered by an instrumented reference port (jobshop_events.ref_run); it is not an oracle, its agreement with the implementation is checked on every candidate",
     ]
 
@@ -634,7 +782,9 @@ def run(ctx: Ctx):
                 "(jobshop_families.py): I containers (tuples, lists, a non-list Sequence, mixed), L machine/duration ints >= 257 built at call time and "
                 "bools, M durations scaled by 2^31..10^18 (metamorphic: the schedule scales) / huge+tiny / integral floats / dyadic halves, O option "
                 "corners, omitted keywords and max_iter sweeps 1..40, S chains / parallel / single-machine / flow shops of 17..1025 (2049) operations "
-                "and machine numbers up to 10^6 with answers known by construction, A call sequences on one shared jobs object; H event-directed "
+                "and machine numbers up to 10^6 with answers known by construction, A call sequences on one shared jobs object, A2 in-place edits between "
+                "calls and inputs whose equal jobs / operations are one object, W one family per internal loop crossing 2^7..2^12, 10^4, 10^5 iterations of it "
+                "(answers and Result.iterations / evaluations by construction), X ints vs integral floats / -0.0 and NaN / inf / overflow; H event-directed "
                 "search (jobshop_events.py: idle windows and later operations that would fit them, ties, accepted moves) whose every candidate "
                 "is run on the implementation and judged by the oracle; "
                 "non-trivial = valid input where >= 2 jobs compete for one machine; distinct = canonical JSON of the call")
